@@ -23,11 +23,11 @@ THEOREMS = [
     "Typedpy.C17.step_contract_holds", "Typedpy.C17.step_contract_top_holds", "Typedpy.C17.convert_steps_contract",
     "Typedpy.C17.step_contract_sensitive_example", "Typedpy.C17.nonpositive_version_accepted_example",
     "Typedpy.C17.nonpositive_rejected_refuted", "Typedpy.C17.convert_nonpositive_characterised",
-    "Typedpy.C17.sites_copy_today", "Typedpy.C17.no_param_writes_today", "Typedpy.C17.nested_reads_input_today",
+    "Typedpy.C17.sites_doc_const_copy_today", "Typedpy.C17.no_doc_writes_today",
     "Typedpy.C17.convert_input_intact", "Typedpy.C17.convert_input_intact_today",
-    "Typedpy.C17.step_input_intact_today", "Typedpy.C17.convert_result_disjoint", "Typedpy.C17.heap_examples",
+    "Typedpy.C17.step_input_intact", "Typedpy.C17.convert_result_disjoint", "Typedpy.C17.heap_examples",
     "Typedpy.C17.versioned_deserialize_whole_path", "Typedpy.C17.versioned_deserialize_is_plain",
-    "Typedpy.C17.whole_path_example",
+    "Typedpy.C17.whole_path_example", "Typedpy.C17.convert_fn_error_propagates", "Typedpy.C17.convert_fn_result",
 ]
 RULE = ("histories of 0..5 (thorough 0..8) mappings over top-level keys a..e (+ rarely `version`) with Constant, Deleted, "
         "moves (plain and dotted paths, degenerate paths), nested `._mapper` entries (depth <= 2) over sub-documents and "
@@ -129,6 +129,13 @@ def judge(case, impl, model):
                           f"history={history} doc={_short(doc)}"))
     if impl.get("full_is_input"):
         fails.append(("live-state:input-document-returned", f"convert_dict returned the input object itself: doc={_short(doc)}"))
+
+    # ---- an exception raised by a user function propagates (theorem convert_fn_error_propagates)
+    if impl.get("swallowed"):
+        name, args, exc = impl["swallowed"]
+        fails.append(("function-exception-swallowed:convert_dict",
+                      f"the user function {name}({_short(args, 120)}) raised {exc} during convert_dict, which nevertheless "
+                      f"returned {_short(impl['full'])}: doc={_short(doc)} history={history}"))
 
     # ---- documented single-step contract (Spec `stepViolations`, evaluated by the Lean driver on the real states)
     for k, v in enumerate(model.get("modelSteps") or []):
